@@ -68,6 +68,36 @@ CHECKS = {
               "read directly, through findall, through assertz + later query; plus random programs."),
         technique="TLA+ machine + executable to_python definition as oracle; public accessors observed at and after every answer",
         ref="5/C15"),
+    "C03": dict(
+        text=("TLC checks CleanAfterEnd in every micro state of spec/YP.tla and enumerates, after every answer, the environment's choice between next and four ways "
+              "of abandoning the query (close, drop, consumer raises in its loop, break), and every (invocation, yielded rows) raise point of a native predicate under "
+              "conjunction, if-then-else, negation, findall, once; each behaviour is replayed on the code: whenever the specification has no suspended query every Variable "
+              "ever created (registry hook) must be unbound after the abandoning call returned, each answer must be exactly the predicted one, and the same query run again "
+              "must give the predicted answers. Programs: fixed programs over all constructs and builtins incl. retract, body trees with cut/;/->/\\+, random programs."),
+        technique="TLC-enumerated abandonment and raise points on the TLA+ machine; replay with Variable-registry inspection",
+        ref="5/C03"),
+    "C04": dict(
+        text=("spec/YP.tla in threads mode: each engine follows a script of API/generator steps (load, assert, retract, register, clear, query, next, close/drop); TLC "
+              "enumerates EVERY interleaving of every chosen pair of scripts and predicts observation and database of ALL engines after every step; each interleaving is "
+              "replayed on one OS thread, with one OS thread per script and a baton handing over at the enumerated points, and with free-running threads under a 1us switch "
+              "interval whose per-thread observations must equal the alone-behaviour; within one engine two suspended side-effect-free queries are interleaved in every way."),
+        technique="TLC-enumerated interleavings of per-engine scripts; replay on one thread, baton threads and free-running threads",
+        ref="5/C04"),
+    "C08": dict(
+        text=("spec/YP.tla keeps per engine defs: key -> Seq(definition) and variadic registrations; a call is resolved when it is made to facts (snapshot) then the "
+              "definitions of exactly that arity in load order, each with its own cut barrier; TLC enumerates every history to depth 2-3 (sampled 3-4) over load with/without "
+              "overwrite of four overlapping scripts, failing loads (raise at top level, syntax error), register (inferred/explicit/variadic), assert, clear; after every action "
+              "eight probe queries (same name other arity, reserved name, unknown predicate, late-bound callee, prefix-similar names) are compared; plus histories that change "
+              "definitions while a call is suspended between two answers."),
+        technique="TLC-enumerated load/register/assert/clear histories on the TLA+ machine with probe queries, replayed on the real engine",
+        ref="5/C08"),
+    "C20": dict(
+        text=("In spec/YP.tla a definition is a clause list or a native predicate; for body-tree instances (cut, ;, ->, \\+ contexts) every non-empty subset of the fact "
+              "predicates is replaced by a registered Python generator written from the same rows (inferred/explicit/variadic registration, yield True/False, next to a dynamic "
+              "fact); TLC checks the machine with natives still yields the reference answers of spec/Control.tla; replayed on the engine with the arguments the function receives "
+              "compared with the machine's log and tagged exceptions required to reach the consumer as the same object (also under call/N, once, findall, negation)."),
+        technique="TLA+ machine with native definitions checked against the denotational reference; replay with argument log and exception identity",
+        ref="5/C20"),
 }
 
 PENDING = {}
